@@ -97,7 +97,7 @@ theorem select_eq (f : FormatSpec) (hf : SpecInt f) (index : Nat) (args : List A
 /-- hypotheses on the argument list under which the model and the Spec are compared -/
 structure ArgsOk (args : List Arg) : Prop where
   inRange : ∀ a ∈ args, a.InRange
-  floatFits : ∀ a ∈ args, a.FloatFits
+  libcRenders : ∀ a ∈ args, a.LibcRenders
   count : args.length < 2 ^ 64
 
 theorem formattersOf_some {args : List Arg} {i : Nat} {a : Arg} (h : args[i]? = some a) (f : FormatSpec) :
@@ -154,7 +154,7 @@ theorem applyLoop_eq_spec (fmt : List Nat) (hz : NoNul fmt) (args : List Arg) (h
             simp only [hid, if_false, formattersOf_some hget]
             have hg : pos < p' ∧ p' ≤ fmt.length := ⟨by omega, hq2⟩
             simp only [hg, and_self, dite_true]
-            rw [← formatType_eq_spec _ f (ha.inRange _ hmem) hfi (ha.floatFits _ hmem)]
+            rw [← formatType_eq_spec _ f (ha.inRange _ hmem) hfi (ha.libcRenders _ hmem)]
             apply map_bind_congr
             intro ev'
             rw [← ih (fmt.length + 1 - p') (by omega) p' _ hq2 rfl]
